@@ -19,7 +19,7 @@ from sim import aioloop as A
 from sim.adata import Events, PrivateFault, make_async_data
 from sim.aioloop import GATE_DELAYS
 from sim.core import Outcome, digest, exc_key, scrub
-from sim.envs import CodeMemo
+from sim.envs import AE_MODES, CodeMemo
 from sim.tape import Tape
 from sim.workload import Gen
 
@@ -63,11 +63,11 @@ def setup() -> None:
     _setup_done = True
 
 
-def _make_env(P, ae: bool, lc: bool, cache_size: int, tape: Tape):
+def _make_env(P, ae: int, lc: bool, cache_size: int, tape: Tape):
     import jinja2
 
     env = jinja2.Environment(
-        loader=jinja2.DictLoader(P.templates), enable_async=True, autoescape=ae, cache_size=cache_size,
+        loader=jinja2.DictLoader(P.templates), enable_async=True, autoescape=AE_MODES[ae], cache_size=cache_size,
         extensions=["jinja2.ext.loopcontrols"] if lc else [], bytecode_cache=CodeMemo(("c37", ae, lc)),
     )
 
@@ -83,12 +83,12 @@ def _make_env(P, ae: bool, lc: bool, cache_size: int, tape: Tape):
     return env
 
 
-TG = [0]
+TG: dict = {}
 
 
 async def _render(env, entry: str, api: int, data: dict, fault_exc):
     try:
-        tmpl = env.get_template(entry, globals={"tg": TG[0]} if (TG[0] and entry == "main") else None)
+        tmpl = env.get_template(entry, globals={"tg": TG[entry]} if entry in TG else None)
         if api == 0:
             return ("ok", scrub(await tmpl.render_async(**data)))
         chunks = []
@@ -168,14 +168,20 @@ def _concurrent(tape, P, ae, lc, cache_size, specs, fault, fresh_env_per_task=Fa
 def run(tape: Tape) -> Outcome:
     setup()
     out = Outcome()
-    ae = bool(tape.draw(2))
+    ae = tape.draw(3)  # autoescape: off, on, by template name (callable)
     lc = bool(tape.draw(2))
     cache_size = CACHE_SIZES[tape.draw(len(CACHE_SIZES))]
     tagged_ok = tape.draw(8) == 7
     size = 2 + tape.draw(4)
     P = Gen(tape, is_async=True, loopcontrols=lc, size=size, allow_module_state=tagged_ok, env_globals=True,
             template_globals=True).generate()
-    tg = tape.draw(4)  # template-level global of 'main' (0 = none), the same for every task
+    # template-level globals, fixed per template name (documented use); 'main' and 'base' are never
+    # included or imported by others, so the documented "cached template keeps its globals" cannot interfere
+    tg = {}
+    if tape.draw(2):
+        tg["main"] = 1 + tape.draw(3)
+    if tape.draw(2):
+        tg["base"] = 11 + tape.draw(3)
     nt = 2 + tape.draw(3)
     specs = []
     for _ in range(nt):
@@ -188,7 +194,8 @@ def run(tape: Tape) -> Outcome:
     fk = 1 + tape.draw(16, "f") if fkind else 0
     fault = (fkind, ftask, fk)
 
-    TG[0] = tg
+    TG.clear()
+    TG.update({k: v for k, v in tg.items() if k in P.templates})
     gc_was = gc.isenabled()
     gc.disable()
     try:
@@ -226,7 +233,7 @@ def run(tape: Tape) -> Outcome:
         out.count("cache_size_%d" % cache_size)
         out.trace = digest([trace, results])
         out.decoded = {
-            "templates": P.templates, "tags": sorted(P.tags), "template_global_tg_of_main": tg, "autoescape": ae, "loopcontrols": lc, "cache_size": cache_size,
+            "templates": P.templates, "tags": sorted(P.tags), "template_globals": dict(tg), "autoescape": ae, "loopcontrols": lc, "cache_size": cache_size,
             "tasks": [{"task": f"r{i}", "entry": e, "api": ["render_async", "generate_async"][a], "data_seed": d}
                       for i, (e, a, d) in enumerate(specs)],
             "fault": {"kind": ["none", "cancel-peer", "peer-data-raises"][fkind], "task": f"r{ftask}", "k": fk, "fired": info["fired"]},
